@@ -23,6 +23,8 @@
 #include "common.h"
 #include "period.h"
 #include "player.h"
+#include "mixer.h"
+#include "virtual.h"
 #include "hio.h"
 #include "loaders/loader.h"
 
@@ -332,6 +334,20 @@ int xmp_smix_release_sample(xmp_context opaque, int num)
 
 	if (num < 0 || num >= smix->ins) {
 		return -XMP_ERROR_INVALID;
+	}
+
+	/* Voices still playing this sample would read freed memory */
+	if (ctx->state >= XMP_STATE_PLAYING) {
+		struct player_data *p = &ctx->p;
+		int smp = ctx->m.mod.smp + num;
+		int voc;
+
+		for (voc = 0; voc < p->virt.maxvoc; voc++) {
+			struct mixer_voice *vi = &p->virt.voice_array[voc];
+			if (vi->chn >= 0 && vi->smp == smp) {
+				libxmp_virt_resetvoice(ctx, voc, 1);
+			}
+		}
 	}
 
 	libxmp_free_sample(&smix->xxs[num]);
